@@ -26,7 +26,7 @@ EXPLANATION = (
 ASSUMPTIONS = [
     "process-level facts (exit status propagation from main, unlink really removing the file, stderr text) are outside: main() of either tool is not under contract; getopt/terminal password reading (readpass.c) not covered",
     "asconcrypt.c is checked with BUFSIZ = 48 (three 16-byte tail windows) and file names/passwords up to 8 characters; library calls (pbkdf2, siv, aead, random) are stubs that return arbitrary data and may report failure; the file-format round trip (decrypt(encrypt(f)) == f for every content) and tamper detection at every byte are not decided by contracts here - they rest on C01/C02 (ASCON-80pq incremental), C06 (SIV) and the unverified framing code",
-    "asconsum.c is checked with BUFSIZ = 16, files of fewer than 2-3 buffers, checksum lines of up to 82 characters, one (quick) or two (thorough) lines, listed file name '-' (stdin) excluded; ferror on the checksum file itself is not consulted by the tool and not required by the property text",
+    "asconsum.c is checked with BUFSIZ = 16, files of fewer than 2-3 buffers, checksum lines of up to 82 characters, one (quick: two of the five line-length buckets, rotating with the seed) or two (thorough) lines, listed file name '-' (stdin) excluded; ferror on the checksum file itself is not consulted by the tool and not required by the property text",
     "read()/write()/open()/close()/unlink() are contracts written from POSIX, not verified",
 ]
 
@@ -59,7 +59,15 @@ def groups(tier):
                         note="BUFSIZ 48; chunk loop closed by loop contract; other loops (strlen, havoc) unwound with unwinding assertions"))
     # check mode: the first line's length is split into buckets (the groups run in parallel; together they cover 0..82)
     sums = [("hash", 1, 3, None)]
-    for lo, hi in ((0, 40), (41, 65), (66, 70), (71, 76), (77, 82)):
+    buckets = [(0, 40), (41, 65), (66, 70), (71, 76), (77, 82)]
+    if tier == "quick":
+        # each of these groups needs ~10 GB of solver memory, so only three fit side by side: the quick tier runs the bucket
+        # with the shortest well-formed lines (the OK / FAILED / read-error logic) and one other bucket chosen by the seed
+        import os
+        seed = int(os.environ.get("VERIF_SEED", "0") or 0)
+        other = [b for b in buckets if b != (66, 70)]
+        buckets = [(66, 70), other[seed % len(other)]]
+    for lo, hi in buckets:
         sums.append(("check", 1, 2, (lo, hi)))
     if tier == "thorough":
         for lo, hi in ((0, 65), (66, 74), (75, 82)):
